@@ -232,7 +232,7 @@ fn movegen(args: &[String]) -> i32 {
 // ------------------------------------------------------------------------------------------------ C15
 fn tt_seq(args: &[String]) -> i32 {
     let len = num_arg(args, "len", 4);
-    let mut rep = Report::new("tt-seq", &format!("all store/retrieve sequences of length <= {} over 2 keys (equal in their low 32 bits) x depths 1..3 x moves {{None, a, b}} (x 2 scores x 3 bounds on the last operation); oracle = the property as stated: a lookup returns nothing, or a record stored under that key that no later equal-or-deeper store superseded; a shallower store never displaces a retrievable deeper one", len));
+    let mut rep = Report::new("tt-seq", &format!("all store/retrieve sequences of length <= {} over 2 keys (equal in their low 32 bits) x depths 1..3 x moves {{None, a, b}} (x 2 scores x 3 bounds on the last operation); oracle = the property as stated: a lookup returns nothing, or a record stored under that key that no later equal-or-deeper store superseded; a shallower store never displaces a retrievable deeper one; + a large table: --bulk distinct keys (default 1.3 million) stored once, all looked up, re-store probes", len));
     let mv_a = Move::new(8, 16, Piece::Pawn, MoveType::Quiet);
     let mv_b = Move::new(1, 18, Piece::Knight, MoveType::Quiet);
     let keys = [11u64, 0xFFFF_FFFF_0000_000Bu64];
@@ -283,8 +283,50 @@ fn tt_seq(args: &[String]) -> i32 {
         false
     }
     let mut seq = Vec::new();
-    rec(&mut seq, len, &small, &ops, &keys, &moves, &bounds, &mut rep);
+    if rec(&mut seq, len, &small, &ops, &keys, &moves, &bounds, &mut rep) { return rep.finish(); }
     rep.sample(jstr("store(k1,d2,Some(a)); store(k1,d2,None); retrieve(k1) == the second record"));
+    // a LARGE table (what a long search builds): `bulk` distinct keys stored once each, then everything looked up again. Whatever
+    // housekeeping a table of that size triggers (eviction is allowed), a lookup returns nothing or exactly the one record ever
+    // stored under that key; then, for keys still present, a strictly shallower store must not displace the record, an equal-depth
+    // store must replace it (or leave nothing).
+    let bulk = num_arg(args, "bulk", 1_300_000) as u64;
+    let key_of = |i: u64| i.wrapping_mul(0x9E37_79B9_7F4A_7C15) ^ (i << 32) ^ 0x5851_F42D_4C95_7F2D;
+    let rec_of = |i: u64| ((i % 2001) as i32 - 1000, if i % 3 == 0 { None } else if i % 3 == 1 { Some(mv_a) } else { Some(mv_b) }, (1 + i % 40) as u8, (i % 3) as usize);
+    let mut tt = TranspositionTable::new();
+    for i in 0..bulk { let r = rec_of(i); tt.store(key_of(i), r.0, r.1, r.2, bounds[r.3]); }
+    rep.evals += bulk;
+    let bidx = |b: &Bounds| match b { Bounds::Exact => 0usize, Bounds::Lower => 1, Bounds::Upper => 2 };
+    let mut present = 0u64;
+    for i in 0..bulk {
+        if let Some(e) = tt.retrieve(key_of(i)) {
+            present += 1;
+            let r = rec_of(i);
+            if e.hash_key != key_of(i) || (e.eval, e.best_move, e.depth, bidx(&e.bounds)) != r {
+                rep.violation = Some(format!("{{\"input\": {{\"what\": \"{} distinct keys key_of(i) stored once each with rec_of(i) (see replay/src/cmds.rs tt_seq), then lookup of key #{}\"}}, \"real\": {}, \"expected\": {}}}", bulk, i,
+                    jstr(&format!("key {} eval {} move {:?} depth {} bound {}", e.hash_key, e.eval, e.best_move.map(|m| m.to_algebraic()), e.depth, bidx(&e.bounds))), jstr(&format!("nothing, or the one record ever stored under this key: eval {} move {:?} depth {} bound {}", r.0, r.1.map(|m| m.to_algebraic()), r.2, r.3))));
+                return rep.finish();
+            }
+        }
+    }
+    let mut checked = 0;
+    for i in (0..bulk).rev().step_by(997) {
+        let k = key_of(i);
+        let cur = match tt.retrieve(k) { Some(e) => (e.eval, e.depth), None => continue };
+        if cur.1 >= 2 {
+            tt.store(k, 31_000, None, cur.1 - 1, Bounds::Exact);
+            if let Some(e) = tt.retrieve(k) { if (e.eval, e.depth) != cur {
+                rep.violation = Some(format!("{{\"input\": {{\"what\": \"after {} distinct keys: key #{} holds depth {}, then store at depth {}\"}}, \"real\": {}, \"expected\": \"a shallower result never replaces a deeper one\"}}", bulk, i, cur.1, cur.1 - 1, jstr(&format!("eval {} depth {}", e.eval, e.depth))));
+                return rep.finish();
+            } }
+        }
+        tt.store(k, -31_000, None, cur.1, Bounds::Lower);
+        if let Some(e) = tt.retrieve(k) { if (e.eval, e.depth) != (-31_000, cur.1) {
+            rep.violation = Some(format!("{{\"input\": {{\"what\": \"after {} distinct keys: key #{} holds depth {}, then store at the same depth\"}}, \"real\": {}, \"expected\": \"an equal-depth result replaces the old one\"}}", bulk, i, cur.1, jstr(&format!("eval {} depth {}", e.eval, e.depth))));
+            return rep.finish();
+        } }
+        checked += 1;
+    }
+    rep.sample(jstr(&format!("bulk: {} keys stored, {} still present, {} re-store probes", bulk, present, checked)));
     rep.finish()
 }
 
@@ -416,7 +458,7 @@ fn hash_components(args: &[String]) -> i32 {
 
 // ------------------------------------------------------------------------------------------------ C12
 fn budget(_args: &[String]) -> i32 {
-    let mut rep = Report::new("budget", "grid: clock,inc in {0,1,2,49,50,999,1000,4999,5000,5001,60000,3600000, 2^40} x opponent values x 24 token orders x 2 colours");
+    let mut rep = Report::new("budget", "grid: clock,inc in {0,1,2,49,50,999,1000,4999,5000,5001,60000,3600000, 2^40} x opponent values x 24 token orders x 2 colours; + each clock pair with movestogo 1/2/40, nodes, ponder, mate before or after the clocks (bound only)");
     let vals: [u64; 13] = [0, 1, 2, 49, 50, 999, 1000, 4999, 5000, 5001, 60000, 3_600_000, 1 << 40];
     let opp: [(u64, u64); 3] = [(0, 0), (3_600_000, 0), (7, 1 << 40)];
     let orders: Vec<Vec<usize>> = { let mut v = Vec::new(); let idx = [0usize, 1, 2, 3];
@@ -441,6 +483,19 @@ fn budget(_args: &[String]) -> i32 {
                     return rep.finish();
                 }
                 first = Some(ms);
+            } }
+            // other legitimate `go` arguments before or after the clocks may refine the allocation but never lift it over the clock
+            for extra in ["movestogo 1", "movestogo 2", "movestogo 40", "nodes 100000", "ponder", "mate 3"] { for front in [false, true] {
+                let (wt, wi, bt, bi) = if white { (t, inc, 60000, 0) } else { (60000, 0, t, inc) };
+                let clocks = format!("wtime {} btime {} winc {} binc {}", wt, bt, wi, bi);
+                let cmd = if front { format!("go {} {}", extra, clocks) } else { format!("go {} {}", clocks, extra) };
+                let b = fl.verif_go_budget(&cmd).map(|d| d.as_millis());
+                rep.evals += 1;
+                if let Some(ms) = b { if ms > t as u128 || (t > 0 && ms >= t as u128) {
+                    rep.violation = Some(format!("{{\"input\": {{\"cmd\": {}, \"white_to_move\": {}}}, \"real\": {{\"budget_ms\": {}}}, \"expected\": {}}}", jstr(&cmd), white, ms,
+                        jstr(&format!("budget <= own clock {} and < it when > 0", t))));
+                    return rep.finish();
+                } }
             } }
             rep.distinct += 1;
         } }
